@@ -47,6 +47,15 @@ ListOrdersNull5 == {[list |-> <<Star>>, order |-> <<>>], [list |-> <<Star>>, ord
                     [list |-> <<ColItem("", "s", ""), ColItem("", "a", "")>>, order |-> <<>>],
                     [list |-> <<ColItem("", "g", ""), ColItem("", "c", ""), ColItem("", "s", "z")>>, order |-> <<>>],
                     [list |-> <<ColItem("", "a", "x"), ColItem("", "s", "")>>, order |-> <<Ord("", "x", "asc")>>]}
+\* strings whose whole content spells a reserved word, an operator or a punctuation mark (true, or, *, a comma, Max, AND, false,
+\* null, =, an opening parenthesis, a semicolon, count), as data and as literals: what is inside quotes is text, whatever it spells
+KwStrs5 == {<<116, 114, 117, 101>>, <<111, 114>>, <<42>>, <<44>>, <<77, 97, 120>>, <<65, 78, 68>>, <<102, 97, 108, 115, 101>>,
+            <<110, 117, 108, 108>>, <<61>>, <<40>>, <<59>>, <<99, 111, 117, 110, 116>>}
+TablesKw5 == {[cols |-> Cols5, rows |-> <<<<IntV(1), StrV(s1), BoolV(TRUE), IntV(6)>>, <<IntV(2), StrV(s2), BoolV(FALSE), IntV(7)>>>>] : s1 \in KwStrs5, s2 \in KwStrs5}
+WheresKw5 == {<<>>} \cup {<< <<Cmp(Col("", "s"), op, Lit(StrV(k)))>> >> : op \in {"=", "!=", "<"}, k \in KwStrs5}
+             \cup {<< <<Cmp(Lit(StrV(k)), "=", Col("", "s")), Cmp(Col("", "a"), "<", Lit(IntV(2)))>> >> : k \in KwStrs5}
+ListOrdersKw5 == {[list |-> <<Star>>, order |-> o] : o \in {<<>>, <<Ord("", "s", "asc")>>}}
+                 \cup {[list |-> <<Item("cmp", Ref("", ""), Cmp(Lit(StrV(k)), "=", Col("", "s")), "e"), ColItem("", "s", "")>>, order |-> <<>>] : k \in KwStrs5}
 Cmps5 == {Cmp(Col("", "a"), op, Lit(IntV(n))) : op \in Ops, n \in {1, 2}}
          \cup {Cmp(Col("", "g"), op, Lit(IntV(8))) : op \in {"<", "!="}}      \* 8: a literal that is no octal number, however it is padded
          \cup {Cmp(Col("", "s"), op, Lit(StrV(<<A, B>>))) : op \in Ops}
@@ -95,6 +104,10 @@ ListOrders5 ==
   \cup {[list |-> <<ColItem("", "s", "z"), ColItem("", "s", ""), ColItem("", "a", "")>>, order |-> <<>>],
         [list |-> <<ColItem("", "a", ""), ColItem("t5", "a", "w"), ColItem("", "g", "")>>, order |-> <<>>]}
 LimOffs == {[limit |-> l, offset |-> o] : l \in {-1, 0, 1, 2, 5, 8}, o \in {-1, 0, 1, 2, 5}} \cup {[limit |-> 1, offset |-> 8]}
+\* ... and the largest value there is ("skip n rows, keep the rest"): TLC's integers end at 2^31 - 1; the harness writes this one
+\* value as 9223372036854775807, the largest the parser takes - to a table of any size either number means "no limit"
+MaxLim == 2147483647
+LimOffs5 == LimOffs \cup {[limit |-> MaxLim, offset |-> o] : o \in {-1, 0, 1, 2, 5}} \cup {[limit |-> 1, offset |-> MaxLim], [limit |-> MaxLim, offset |-> MaxLim]}
 
 \* ------------------------------------------------------------------ C06
 \* three-column tables on both sides of the first join, a two-column and a one-column table after it
@@ -169,6 +182,13 @@ Tables7Base == {[cols |-> Cols7, rows |-> r] : r \in SeqsUpTo(Rows7, 2)}
 \* a nullable BOOLEAN column f at the end (TRUE where m is positive, NULL elsewhere): COUNT(f) counts booleans too
 AddF(row) == row \o <<IF row[3].v > 0 THEN BoolV(TRUE) ELSE Null>>
 Tables7 == {[cols |-> t.cols \o <<[n |-> "f", ty |-> "b"]>>, rows |-> [i \in 1..Len(t.rows) |-> AddF(t.rows[i])]] : t \in Tables7Base}
+\* text grouping values an implementation may confuse when it writes group keys side by side: NULL next to the empty string,
+\* a separator character (unit separator, NUL, a comma, a quote) at the end of one value or at the start of the next
+Sep7 == {31, 0, 44, 39}
+UVN == {<<Null, StrV(<<A>>)>>, <<StrV(<<>>), StrV(<<A>>)>>, <<Null, Null>>, <<StrV(<<>>), StrV(<<>>)>>, <<StrV(<<>>), Null>>}
+       \cup {<<StrV(<<A, sp>>), StrV(<<B>>)>> : sp \in Sep7} \cup {<<StrV(<<A>>), StrV(<<sp, B>>)>> : sp \in Sep7}
+RowGrp7(m, uv) == <<IntV(1), IntV(2), IntV(m), Null, uv[1], uv[2], Null>>
+TablesGrp7 == {[cols |-> Cols7 \o <<[n |-> "f", ty |-> "b"]>>, rows |-> <<RowGrp7(0, a), RowGrp7(30, b), RowGrp7(7, c)>>] : a \in UVN, b \in UVN, c \in UVN}
 Agg(k, c) == Item(k, Ref("", c), NoCmp, "")
 ListGroups7 ==
   {[list |-> <<Agg("count", "")>>, group |-> <<>>], [list |-> <<Agg("avg", "m"), Agg("countcol", "n")>>, group |-> <<>>],
@@ -214,8 +234,10 @@ JoinListGroups7 ==
 Wheres7 == {<<>>, << <<Cmp(Col("", "m"), "<", Lit(IntV(100)))>> >>, << <<Cmp(Col("", "p"), "=", Lit(IntV(1)))>>, <<Cmp(Col("", "q"), "=", Lit(IntV(3)))>> >>}
 
 Out(name, S) == PrintT(<<"SCN", ToJson([set |-> name, elems |-> SetToSeq(S)])>>)
+ASSUME /\ Out("tablesgrp7", TablesGrp7)
+ASSUME /\ Out("tableskw5", TablesKw5) /\ Out("whereskw5", WheresKw5) /\ Out("listorderskw5", ListOrdersKw5)
 ASSUME /\ Out("tablesnull5", TablesNull5) /\ Out("wheresnull5", WheresNull5) /\ Out("listordersnull5", ListOrdersNull5)
-       /\ Out("tables5", Tables5) /\ Out("wheres5", Wheres5) /\ Out("listorders5", ListOrders5) /\ Out("limoffs", LimOffs)
+       /\ Out("tables5", Tables5) /\ Out("wheres5", Wheres5) /\ Out("listorders5", ListOrders5) /\ Out("limoffs", LimOffs) /\ Out("limoffs5", LimOffs5)
        /\ Out("dbs6", Dbs6) /\ Out("froms6", Froms6) /\ Out("fromsalias6", FromsAlias6) /\ Out("lists6", Lists6)
        /\ Out("listsalias6", ListsAlias6) /\ Out("wheres6", Wheres6) /\ Out("fromssame6", FromsSame6) /\ Out("fromsambon6", FromsAmbOn6 \cup FromsChainAmb6) /\ Out("listssame6", ListsSame6)
        /\ Out("tables7", Tables7) /\ Out("listgroups7", ListGroups7) /\ Out("wheres7", Wheres7)
